@@ -53,10 +53,22 @@ def pair_kind(rng):
 
 class Check(PropertyCheck):
     id = 'C08'
-    lean_targets = ['RegionsVerif.Props.C08', 'RegionsVerif.Bridge.CompoundGlue']
-    namespaces = ['RegionsVerif.Props.C08', 'RegionsVerif.Bridge.CompoundGlue']
+    lean_targets = ['RegionsVerif.Props.C08', 'RegionsVerif.Bridge.CompoundGlue', 'RegionsVerif.Bridge.InlineGlueC08']
+    namespaces = ['RegionsVerif.Props.C08', 'RegionsVerif.Bridge.CompoundGlue', 'RegionsVerif.Bridge.InlineGlueC08']
+
+    def _inline_glue(self):
+        # tie T: normal forms of the glue methods (tools/inlineglue.py, group C08)
+        import importlib.util, os
+        from .common import VERIF
+        spec = importlib.util.spec_from_file_location('inlineglue', os.path.join(VERIF, 'tools', 'inlineglue.py'))
+        mod = importlib.util.module_from_spec(spec)
+        spec.loader.exec_module(mod)
+        return mod.main(['C08'])
 
     def translate(self):
+        return list(self._translate0()) + list(self._inline_glue())
+
+    def _translate0(self):
         # tie T: regenerate Gen/CompoundGlue.lean (CompoundPixelRegion.contains, the annulus structure) from the current source
         import importlib.util, os
         from .common import VERIF
@@ -196,6 +208,16 @@ class Check(PropertyCheck):
             out['inner'] = [bool(v) for v in np.ravel(inner.contains(pc))]
             out['outer'] = [bool(v) for v in np.ravel(outer.contains(pc))]
             out['area'] = [float(reg.area), float(outer.area), float(inner.area)]
+            # rotation commutes: the rotated annulus is (rotated outer) and not (rotated inner)
+            o = PixCoord(case['o'][0], case['o'][1])
+            ang = case['angle'][0] * u.Unit(case['angle'][1])
+            rr = reg.rotate(o, ang)
+            pr = pc.rotate(o, ang)
+            out['rot_cls_same'] = type(rr) is type(reg)
+            out['rot_a'] = [bool(v) for v in np.ravel(rr.contains(pr))]
+            ro, ri = outer.rotate(o, ang), inner.rotate(o, ang)
+            out['rot_outer'] = [bool(v) for v in np.ravel(ro.contains(pr))]
+            out['rot_inner'] = [bool(v) for v in np.ravel(ri.contains(pr))]
             # the centre-mode mask of an annulus is xor(inner mask, outer mask) on the outer box
             try:
                 m = reg.to_mask('center')
@@ -311,6 +333,16 @@ class Check(PropertyCheck):
                 inn = real['inner'][i] != neg
                 if real['contains'][i] != ((o and not inn) != neg):
                     bad('annulus_contains_wrong', f'point {p}: outer={o} inner={inn} -> {real["contains"][i]}')
+                    break
+            if not real.get('rot_cls_same', True):
+                bad('rotate_changes_annulus_class', '')
+            for i, p in enumerate(case['pts']):
+                if self._margin(d, p) < EPS * 1000:      # rotated positions carry rounding of the rotation
+                    continue
+                o2 = real['rot_outer'][i] != neg
+                i2 = real['rot_inner'][i] != neg
+                if real['rot_a'][i] != ((o2 and not i2) != neg):
+                    bad('annulus_rotate_does_not_commute', f'point {p}: rotated outer={o2} inner={i2} -> {real["rot_a"][i]}')
                     break
             a, ao, ai = real['area']
             if abs(a - (ao - ai)) > 1e-12 * max(abs(ao), 1e-300):
